@@ -138,12 +138,33 @@ def gen_history(rng, tag, shipped):
 
     finals = [rand_query() for _ in range(rng.randint(6, 12))]
     finals += [reverse(q) for q in finals if rng.random() < 0.4]   # a search that fails one way may succeed the other way
+    # a pair of units that have nothing to do with the rest: asked about while neither has any equivalence, connected by the
+    # LAST declaration of the history (nothing is declared afterwards that would empty a memo table by the way)
+    lone = None
+    if rng.random() < 0.6:
+        lx, ly = f"zq{tag}lx", f"zq{tag}ly"
+        defs = defs + [["define", lx, lx, ["dimname", "length"]], ["define", ly, ly, ["dimname", "length"]]]
+        lone = [["convert", ["i", 3], ["u", lx], ["u", ly]], ["convert", ["i", 8], ["u", ly], ["u", lx]], ["eq", ["i", 1], ["u", lx], ["i", 4], ["u", ly]],
+                ["lt", ["i", 1], ["u", lx], ["i", 5], ["u", ly]]]
+        decls = decls + [["declare", ["u", lx], ["i", 4], ["u", ly]]]
+        finals += lone
+    # the pair that the very first declaration is going to connect (neither unit has any equivalence until then) is asked
+    # about before anything is declared - in one direction or both - and again at the end
+    first_pair = None
+    d0 = decls[0] if decls else None
+    if d0 is not None and d0[0] == "declare" and d0[1][0] == "u" and d0[3][0] == "u":
+        first_pair = [["convert", ["i", 3], d0[1], d0[3]], ["convert", ["i", 3], d0[3], d0[1]], ["eq", ["i", 1], d0[1], ["i", 1], d0[3]]]
+        finals += first_pair
     if mutual_queries:
         finals += rng.sample(mutual_queries, len(mutual_queries))
         odd_queries = odd_queries + mutual_queries      # ... and they are asked in between, in another order, too
     ops1 = list(defs)
     if rng.random() < 0.5:
         ops1 += finals  # every final query is first asked before anything has been declared
+    elif first_pair:
+        ops1 += rng.sample(first_pair, rng.randint(1, 3))
+    if lone:
+        ops1 += rng.sample(lone, rng.randint(1, 3))
     for d in decls:
         for _ in range(rng.randint(0, 4)):
             q = rng.choice(finals) if rng.random() < 0.7 else rand_query()
@@ -485,13 +506,13 @@ def known_witness(ctx):
 def run(ctx):
     rng = ctx.rng
     known_witness(ctx)
-    n = ctx.scale(128, 3000)
+    n = ctx.scale(176, 3000)
     cases = []
     for i in range(n):
-        if i % 8 == 2:
+        if i % 16 == 2:
             cases.append(gen_naming_history(rng, tag=f"c08s{ctx.seed}i{i}"))
             ctx.count("histories_in_which_an_anonymous_product_gets_a_name_between_questions")
-        elif i % 8 == 6:
+        elif i % 16 in (6, 14):
             cases.append(gen_ring_history(rng, tag=f"c08s{ctx.seed}i{i}"))
             ctx.count("histories_over_a_ring_of_equivalences_that_does_not_close_exactly")
         elif i % 4 == 1:
